@@ -35,16 +35,18 @@ func tgCase(trace []string, stopped bool) string {
 }
 
 func runShutdown(c *Ctx, cases *[]string) {
-	for i := 0; i < c.Scale(60, 600); i++ {
+	for i := 0; i < c.Scale(60, 600) && !giveUp("threadgroup"); i++ {
 		tgScripted(c, c.R.U64(), cases)
 	}
-	for i := 0; i < c.Scale(30, 300); i++ {
+	// (a group that lets threads in after Stop makes the runtime panic in WaitGroup.Wait under load:
+	// the scripted runs above report that with a replay, the load test is then skipped)
+	for i := 0; i < c.Scale(30, 300) && !giveUp("threadgroup-stress") && failedRuns["threadgroup"] == 0; i++ {
 		tgStress(c, c.R.U64())
 	}
-	for i := 0; i < c.Scale(10, 60); i++ {
+	for i := 0; i < c.Scale(10, 60) && !giveUp("rhp4-shutdown"); i++ {
 		rhp4Shutdown(c, c.R.U64(), i, cases)
 	}
-	for i := 0; i < c.Scale(8, 40); i++ {
+	for i := 0; i < c.Scale(8, 40) && !giveUp("wallet-shutdown"); i++ {
 		walletShutdown(c, c.R.U64(), i, cases)
 	}
 }
@@ -443,6 +445,9 @@ func rhp4Shutdown(c *Ctx, seed uint64, variant int, cases *[]string) {
 		*cases = append(*cases, tgCase(trace, true))
 	}
 	c.Res.Eval(fmt.Sprintf("rhp4|%d|%v", k, trace), k > 0)
+	if variant == 1 {
+		c.Res.Sample(map[string]any{"section": "rhp4-shutdown", "script": steps, "labels": trace})
+	}
 	c.Res.Count("rhp4:close")
 	c.Res.CountN("rhp4:inflight-at-close", k)
 	report(c, "rhp4-shutdown", seed, bedConfig{}, variant, steps, fails)
@@ -568,6 +573,9 @@ func walletShutdown(c *Ctx, seed uint64, variant int, cases *[]string) {
 		*cases = append(*cases, tgCase(trace, true))
 	}
 	c.Res.Eval(fmt.Sprintf("wallet|%v|%d", inflight, variant), inflight)
+	if variant == 0 {
+		c.Res.Sample(map[string]any{"section": "wallet-shutdown", "script": steps, "labels": trace})
+	}
 	c.Res.Count("wallet:close")
 	report(c, "wallet-shutdown", seed, bedConfig{}, variant, steps, fails)
 }
